@@ -241,7 +241,7 @@ def unify(kind_a, kind_b):
         raise ValueError("arithmetic with flags is not permitted")
 
     if isinstance(kind_a, UserType):
-        assert isinstance(kind_b, (UserType, Scalar))
+        assert isinstance(kind_b, (UserType, Scalar, Integer))
 
         if isinstance(kind_b, UserType):
             if kind_a.identifier != kind_b.identifier:
@@ -252,7 +252,10 @@ def unify(kind_a, kind_b):
         return kind_a
 
     if isinstance(kind_a, Array):
-        assert isinstance(kind_b, (Array, Scalar))
+        assert isinstance(kind_b, (Array, Scalar, Integer))
+
+        if isinstance(kind_b, Integer):
+            return kind_a
 
         return Array(
                 not (not kind_a.is_real_valued or not kind_b.is_real_valued))
